@@ -175,7 +175,8 @@ TARGET_PAIRS = {
     "td3": [("policy", "policy_target"), ("q", "q_target")],
     "td3_lap": [("policy", "policy_target"), ("q", "q_target")],
     "sac": [("q", "q_target")],
-    "td7": [("critic", "critic_target"), ("embedding", "fixed_embedding"),
+    "td7": [("critic", "critic_target"), ("actor", "actor_target"),
+            ("embedding", "fixed_embedding"),
             ("embedding", "fixed_embedding_target"),
             ("fixed_embedding", "fixed_embedding_target")],
     "mrq": [("policy_with_encoder", "policy_with_encoder_target"),
@@ -236,7 +237,7 @@ def run_loop(case):
 
     algo = case["algo"]
     d, tau = case["delay"], case["tau"]
-    ls = 9
+    ls = 11  # not a multiple of any delay used below
     # continued runs: the cadence is a function of the absolute step count
     G = int(np.random.default_rng(case["seed"]).choice([7, 13])) \
         if case.get("resume") else 0
